@@ -662,6 +662,7 @@ var c9retryC = []string{"comm>self:ok", "comm>self:fail", "comm>self:cancel", "c
 func genC09(g *G) {
 	// the registries as shared objects: lock-exclusion probes and a late send against a release in progress
 	g.Emit("excl", "-")
+	g.out.Flush() // (registries that do not exclude can end the driver with Go's fatal "concurrent map" error anywhere below)
 	g.Emit("latesend", "-")
 	for _, n := range []string{"1", "2", "3", "5"} {
 		g.Emit("twosends", n)
